@@ -26,7 +26,7 @@ LEVEL_NOTE = ('Trusted: kv/fakekube.py (merge/JSON-patch semantics, watch orderi
               'virtual clocks. Echo lag is kept below the consistency timeout (beyond it the statement itself excludes). Handlers with retries=/timeout= '
               'limits are left to C11.')
 RULE = ("cases = closed-loop scenarios: 1-4 handlers per cause (+sub-handlers) with outcome scripts over {ok,temporary(d),permanent,arbitrary}, "
-        "lifecycle, storage configuration, status subresource on/off, foreign status/spec edits mid-cycle, graceful restarts and kills, optional daemon whose exit takes several re-checks (deletions spanning passes); directed "
+        "lifecycle, storage configuration, status subresource on/off, foreign status/spec edits mid-cycle, graceful restarts and kills, optional daemon whose exit takes several re-checks (deletions spanning passes), optional watch-stream breaks (resume or re-listing) mid-cycle; directed "
         "scenarios are re-run once per (write request index, before/after) kill point. non-trivial = multi-step cycle (>=3 operator PATCHes on one "
         "object) or a restart/kill mid-cycle; distinct = hash of the sequence of (handler id, outcome, incarnation ordinal) and kill position")
 ASSUMPTIONS = [
@@ -168,6 +168,17 @@ def random_desc(rng: random.Random, i: int) -> dict[str, Any]:
         'lag': {'values': rng.choice([[0.0], [0.0, 0.05], [0.0, 0.3, 0.6]])},
         'post_yields': rng.choice([0, 0, 1, 3]),
     }
+    if rng.random() < 0.15:
+        # the watch stream breaks in the middle of cycles: it is resumed from the last seen version, or re-listed after a 410
+        extra: list[list[Any]] = []
+        for _ in range(rng.randint(1, 3)):
+            tb = round(rng.uniform(t, t_end + 3.0), 3)
+            kind = rng.choice(['eof', 'conn', '410', 'timeout'])
+            if kind == '410' or rng.random() < 0.3:
+                extra.append([tb, 'compact'])
+            extra.append([round(tb + 0.001, 3), 'break', kind])
+        desc['timeline'] = sorted(desc['timeline'] + extra, key=lambda x: x[0])
+        desc['settings']['watching__reconnect_backoff'] = rng.choice([0.1, 0.5])
     if nrestarts == 0 and rng.random() < 0.4:
         desc['faults'] = [{'client': 'op1', 'match': {'kind': 'patch', 'plural': 'kopfexamples'}, 'nth': rng.randint(1, 12),
                            'actions': [[rng.choice(['kill_before', 'kill_after']), {}]]}]
